@@ -358,6 +358,91 @@ fn check_case(item: &str, _ctx: &Ctx) -> Outcome {
     Outcome::pass(true, hash_str(item)).with_case(item.to_string())
 }
 
+// ------------------------------------------------------------------ SWAP as a program statement, and what CONT does after a refusal
+
+/// A refused SWAP leaves both variables unchanged - also when the program is continued.
+fn check_swap_program(t: &mut Tape, ctx: &Ctx) -> Outcome {
+    let pool: &[(&str, &str, &str)] = &[
+        ("A%", "3", " 3 "),
+        ("B", "4.5", " 4.5 "),
+        ("C#", "0.1#", " 0.1 "),
+        ("D$", "\"dee\"", "dee"),
+        ("E!", "-2", "-2 "),
+        ("Q(1)", "7", " 7 "),
+        ("R$(2)", "\"é\"", "é"),
+        ("S%(0)", "-9", "-9 "),
+        ("F", "0", " 0 "),
+        ("G$", "\"\"", ""),
+        ("H#", "12345.678901#", " 12345.678901 "),
+        ("I%", "0", " 0 "),
+    ];
+    let (n1, v1, p1) = *t.pick(pool);
+    let (n2, v2, p2) = *t.pick(pool);
+    if n1 == n2 {
+        return Outcome::discard("same variable twice");
+    }
+    let cls = |n: &str| -> char {
+        if n.contains('$') {
+            '$'
+        } else if n.contains('%') {
+            '%'
+        } else if n.contains('#') {
+            '#'
+        } else {
+            '!'
+        }
+    };
+    let same = cls(n1) == cls(n2);
+    let prog = vec![format!("10 {}={}:{}={}", n1, v1, n2, v2), format!("20 SWAP {},{}", n1, n2), format!("30 PRINT \"<\";{};\"|\";{};\">\"", n1, n2), "40 END".to_string()];
+    let show = format!("PRINT \"<\";{};\"|\";{};\">\"", n1, n2);
+    let unchanged = format!("<{}|{}>\n", p1, p2);
+    let swapped = format!("<{}|{}>\n", p2, p1);
+    let mut term = Term::new();
+    let mut o = Opts::default();
+    for l in &prog {
+        term.line(l, &mut o);
+    }
+    term.take();
+    let case = format!("{}\nRUN{}", prog.join("\n"), if same { "" } else { "\nCONT" });
+    term.line("RUN", &mut o);
+    let out = flat(&term.take());
+    if let Some(m) = has_panic(&term.log) {
+        return Outcome::fail("panic", m, case);
+    }
+    if same {
+        if out != swapped {
+            return Outcome::fail("swap-in-a-program", format!("RUN printed {:?}, expected {:?}", out, swapped), case);
+        }
+        return Outcome::pass(true, hash_str(&case)).with_labels(vec!["same-typed SWAP in a program"]).with_case(case);
+    }
+    if !out.starts_with("?TYPE MISMATCH IN 20") {
+        return Outcome::fail("swap-in-a-program", format!("a mixed-type SWAP printed {:?}, expected ?TYPE MISMATCH IN 20", out), case);
+    }
+    term.line(&show, &mut o);
+    let now = flat(&term.take());
+    if now != unchanged {
+        return Outcome::fail("swap-refused-but-variables-changed", format!("after the refusal: {:?}, expected {:?}", now, unchanged), case);
+    }
+    // the documented CONT after an error condition: whatever it resumes, the refused SWAP must
+    // still have left both variables alone
+    term.line("CONT", &mut o);
+    let cont_out = flat(&term.take());
+    if let Some(m) = has_panic(&term.log) {
+        return Outcome::fail("panic", m, case);
+    }
+    term.line(&show, &mut o);
+    let later = flat(&term.take());
+    if later != unchanged {
+        return Outcome::fail("swap-refused-but-variables-changed", format!("after the refusal and CONT (which printed {:?}): {:?}, expected {:?}", cont_out, later, unchanged), case);
+    }
+    let o2 = Outcome::pass(true, hash_str(&case)).with_labels(vec!["mixed-type SWAP in a program, then CONT"]);
+    if ctx.render {
+        o2.with_case(case)
+    } else {
+        o2
+    }
+}
+
 pub fn property() -> Property {
     Property {
         id: "C06",
@@ -367,6 +452,6 @@ Oracle: the reference store after every statement (Integer variables show the fl
 After a DEFtype, undecorated variables of the named letters whose value has another type read as the new type's default; undecorated variables of other letters may be kept or dropped (observed once, then fixed). \
 Non-trivial: >= 3 distinct names sharing a first letter were written or read, a boundary subscript was used, or a DEFtype came between write and read. Distinct by script.",
         assumptions: vec!["the manual's 'existing variables not matching the new type are dropped' is read as applying at least to the named letters; for other letters either outcome is accepted"],
-        subs: vec![Sub::items("store_cases", gen_cases, check_case, false), Sub::tape("store_sequences", check_store, 300_000, 5_000_000, 600)],
+        subs: vec![Sub::items("store_cases", gen_cases, check_case, false), Sub::tape("store_sequences", check_store, 300_000, 5_000_000, 600), Sub::tape("swap_in_program", check_swap_program, 2_000, 20_000, 8)],
     }
 }
